@@ -21,6 +21,8 @@ def Op.WF (pf : Bytes → Nat) : Op → Prop
   | .torn .. => False
   | .tornDel .. => False
   | .segCompact => False
+  | .smallSeg _ => False
+  | .hdrSeg _ => False
   | _ => True
 
 /-- ids stay far below 2^64 (the id sequence is a uint64 in the code) -/
@@ -157,6 +159,8 @@ theorem step_sim (pf : Bytes → Nat) (ess : Nat → List Entry) (s : SFile) (sp
   | segCompact => cases hwf
   | torn k cut => cases hwf
   | tornDel id cut => cases hwf
+  | smallSeg id => cases hwf
+  | hdrSeg i => cases hwf
   | allIDs =>
     have := observeAll_lookups s h hr s.seen hR.seen
     refine ⟨ess, ?_, ?_⟩
